@@ -287,6 +287,12 @@ pub fn ref_eval(e: &Expr) -> RefVal {
                         Some(n) => n,
                         None => return DontCare("result too large"),
                     };
+                    if n.unsigned_abs() > 1000 {
+                        // the subject's repeated-multiplication power (and num's
+                        // gcd(x, 1)) is quadratic in the exponent; nothing is
+                        // claimed beyond three-digit exponents
+                        return DontCare("exponent magnitude > 1000");
+                    }
                     if av.value.is_zero() {
                         if n < 0 {
                             return Undefined("zero to a negative power");
@@ -318,4 +324,83 @@ pub fn is_small_int(v: &BigRational, max: i64) -> bool {
 
 pub fn one() -> BigRational {
     BigRational::one()
+}
+
+// ---------------------------------------------------------------------------
+// JSON (de)serialisation of trees for case payloads.
+
+pub fn to_json(e: &Expr) -> serde_json::Value {
+    use serde_json::json;
+    match e {
+        Expr::Num(s) => json!({"n": s}),
+        Expr::Qty(l, u) => json!({"q": [l, u]}),
+        Expr::Leaf(s, si) => json!({"l": [s, si.value.numer().to_string(), si.value.denom().to_string(), si.dim.to_vec()]}),
+        Expr::Bin(a, op, b) => json!({"b": [to_json(a), op.text(), to_json(b)]}),
+        Expr::Paren(a) => json!({"p": to_json(a)}),
+        Expr::To(a, u) => json!({"t": [to_json(a), u]}),
+    }
+}
+
+pub fn from_json(v: &serde_json::Value) -> Expr {
+    if let Some(s) = v.get("n") {
+        return Expr::Num(s.as_str().unwrap().to_string());
+    }
+    if let Some(q) = v.get("q") {
+        return Expr::Qty(q[0].as_str().unwrap().to_string(), q[1].as_str().unwrap().to_string());
+    }
+    if let Some(l) = v.get("l") {
+        let n: BigInt = l[1].as_str().unwrap().parse().unwrap();
+        let d: BigInt = l[2].as_str().unwrap().parse().unwrap();
+        let mut dim = DIM0;
+        for (i, x) in l[3].as_array().unwrap().iter().enumerate() {
+            dim[i] = x.as_i64().unwrap() as i32;
+        }
+        return Expr::Leaf(l[0].as_str().unwrap().to_string(), Si { value: BigRational::new(n, d), dim });
+    }
+    if let Some(b) = v.get("b") {
+        let op = match b[1].as_str().unwrap() {
+            "+" => Op::Add,
+            "-" => Op::Sub,
+            "*" => Op::Mul,
+            "/" => Op::Div,
+            _ => Op::Pow,
+        };
+        return Expr::Bin(Box::new(from_json(&b[0])), op, Box::new(from_json(&b[2])));
+    }
+    if let Some(p) = v.get("p") {
+        return Expr::Paren(Box::new(from_json(p)));
+    }
+    if let Some(t) = v.get("t") {
+        return Expr::To(Box::new(from_json(&t[0])), t[1].as_str().unwrap().to_string());
+    }
+    panic!("bad tree json {v}")
+}
+
+// ---------------------------------------------------------------------------
+// RefRound
+
+/// floor of a rational
+pub fn ref_floor(v: &BigRational) -> BigInt {
+    use num::Integer;
+    v.numer().div_floor(v.denom())
+}
+
+pub fn ref_ceil(v: &BigRational) -> BigInt {
+    -ref_floor(&-v.clone())
+}
+
+/// nearest integer, halves away from zero
+pub fn ref_round(v: &BigRational) -> BigInt {
+    let half = BigRational::new(BigInt::from(1), BigInt::from(2));
+    if v.is_negative() {
+        -ref_floor(&(-v.clone() + &half))
+    } else {
+        ref_floor(&(v.clone() + &half))
+    }
+}
+
+/// nearest multiple of 10^-n, halves away from zero
+pub fn ref_round_digits(v: &BigRational, n: i64) -> BigRational {
+    let s = pow10(n);
+    BigRational::from_integer(ref_round(&(v.clone() * &s))) / s
 }
